@@ -121,7 +121,8 @@ func TestC10(t *testing.T) {
 			fctx.Request.Header.SetMethod("GET")
 			fctx.Request.SetRequestURI("/")
 			fctx.Request.Header.SetHost("real.example")
-			xff := map[string]string{"one": "198.51.100.7", "list": "198.51.100.7, 10.0.0.1", "garbage": "not-an-ip", "garbage-then-ip": "not-an-ip, 198.51.100.8"}[cs.Hdrs.Xff]
+			xff := map[string]string{"one": "198.51.100.7", "list": "198.51.100.7, 10.0.0.1", "garbage": "not-an-ip", "garbage-then-ip": "not-an-ip, 198.51.100.8",
+				"zone": "fe80::1%eth0", "zone-then-ip": "::1%<script>alert(1)</script>, 198.51.100.8"}[cs.Hdrs.Xff]
 			if cs.Hdrs.Xff != "absent" {
 				fctx.Request.Header.Set("X-Forwarded-For", xff)
 				if cs.Cfg.Header != "" {
@@ -143,7 +144,7 @@ func TestC10(t *testing.T) {
 			}
 			*b.obs = c10Obs{}
 			b.h(&fctx)
-			expIP := map[string]string{"remote": remote.IP.String(), "empty": "", "raw-list": xff, "raw-garbage": xff, "raw-garbage-then-ip": xff}[cs.Out.IP]
+			expIP := map[string]string{"remote": remote.IP.String(), "empty": "", "raw-list": xff, "raw-garbage": xff, "raw-garbage-then-ip": xff, "raw-zone": xff, "raw-zone-then-ip": xff}[cs.Out.IP]
 			if expIP == "" && cs.Out.IP != "empty" {
 				expIP = cs.Out.IP
 			}
